@@ -20,6 +20,7 @@ RULE = ("(a) system: nodes with ciw.Schedule (1-4 shifts, zero-server shifts, of
         "Non-trivial (a): >= 2 shift changes with customers present or >= 1 slot with more waiting than its size, plus one of "
         "{zero shift with a queue, interruption, overtime server, slot starts}; distinct by digest.")
 ASSUMPTIONS = ["either side of a boundary is accepted exactly at a coincident instant (tie order between nodes is random by design, S5)"]
+TECHNIQUE = 'property-based testing against a closed-form timetable reference; per-visit interruption bookkeeping audit; exhaustive enumeration of timetable generators'
 WALL = {"quick": 150, "thorough": 540}
 
 ALLOWED = ["schedule", "sched_preempt", "sched_reroute", "slotted", "slot_capacitated", "slot_preempt", "priorities", "reneging", "batching",
